@@ -31,13 +31,24 @@
   `nx2diagram_needs_offset`).  What the code does outside the hypothesis is recorded as
   theorems about concrete bodies (`ex_nonplanar_accepted`, …): these are NOT claims of C20.
 
-  NOT PROVED / not modelled (oracle only, harness/props/c20.py): the two back-ends
-  (`MatBackend`, `TikzBackend`, `draw`, `draw_box`: matplotlib / file output), bubbles
-  (`bubble_opening`/`bubble_closing` branches of `add_box`).  No theorem here claims them.
+  Back-end clause, the part that is pure list/dict code: Model/Spiders.lean models
+  `MatBackend.draw_spiders` (drawing.py:438-453) — which boxes are drawn as spiders, grouped into one
+  `nx.draw_networkx_nodes` call per shape, each node with its own colour, and the `ValueError` of
+  `zip(*colors.items())` on an empty group.  PROVED for every graph: it never raises, the node lists
+  of the calls put together are a permutation of the spiders of the graph (each spider drawn exactly
+  once, nothing else), every node is drawn in the call of its own shape, one call per shape, no
+  empty call (`draw_spiders_*`).  Tied to /repo by reading the scatter collections the real method
+  leaves on the axis (stream `attr_spiders` of the check).
+
+  NOT PROVED / not modelled (oracle only, harness/props/c20.py + harness/attrlib.py): the rest of
+  the two back-ends (`MatBackend`, `TikzBackend`, `draw`, `draw_box`, the quantum drawing methods,
+  `equation`, `pregroup_draw`: matplotlib / file output), bubbles (`bubble_opening`/`bubble_closing`
+  branches of `add_box`).  No theorem here claims them.
 -/
 import Proofs.LayoutDiagram
 import Proofs.Diagramize
 import Proofs.Nx2Roundtrip
+import Proofs.Spiders
 
 namespace DV.C20
 open DV DV.Layout DV.Dz
@@ -378,5 +389,46 @@ theorem ex_fabricated_input :
 /-- The hypotheses of `nx2diagram_diagram2nx` are met by a concrete diagram with an input-less
     box away from offset 0. -/
 example : exState.WF := ⟨rfl, rfl, rfl, rfl, by simp [exState, LArrow.WF, Chain, Layer.dom, Layer.cod]⟩
+
+/-! ### `MatBackend.draw_spiders` (Model/Spiders.lean): every spider is drawn exactly once -/
+
+section Spiders
+open DV.Spiders
+
+/-- `MatBackend.draw_spiders` raises on no graph (in particular `zip(*colors.items())` never sees an
+    empty dict), and the calls of `nx.draw_networkx_nodes` it makes are `calls g`. -/
+theorem draw_spiders_never_raises (g : List BoxNode) : matSpiders g = .ok (calls g) :=
+  matSpiders_eq g
+
+/-- The node lists of the calls, put together, are a permutation of the boxes of the graph with
+    `draw_as_spider`: each spider is drawn exactly once, and nothing else is. -/
+theorem draw_spiders_each_spider_once (g : List BoxNode) :
+    ((calls g).flatMap (fun c => c.nodelist)).Perm (spiderNodes g) :=
+  calls_perm g
+
+/-- Every node is drawn in the call of its own shape (with its own colour: `node_color` is read off
+    the nodes of `nodelist`), it is a spider, and it is a node of the graph. -/
+theorem draw_spiders_own_shape (g : List BoxNode) (c : Spiders.Call) (hc : c ∈ calls g) (n : BoxNode)
+    (hn : n ∈ c.nodelist) : n.shape = c.shape ∧ n.spider = true ∧ n ∈ g :=
+  calls_own_shape g c hc n hn
+
+/-- One call per shape. -/
+theorem draw_spiders_one_call_per_shape (g : List BoxNode) :
+    ((calls g).map (fun c => c.shape)).Nodup :=
+  calls_shapes_nodup g
+
+/-- No call has an empty node list. -/
+theorem draw_spiders_no_empty_call (g : List BoxNode) (c : Spiders.Call) (hc : c ∈ calls g) :
+    c.nodelist ≠ [] :=
+  calls_nonempty g c hc
+
+/-- A Z spider, a Hadamard (the "rectangle" shape), a plain box and an X spider: two calls. -/
+example :
+    matSpiders [⟨0, true, .circle, .green⟩, ⟨1, true, .rectangle, .yellow⟩,
+                ⟨2, false, .circle, .white⟩, ⟨3, true, .circle, .red⟩]
+      = .ok [⟨.rectangle, [⟨1, true, .rectangle, .yellow⟩]⟩,
+             ⟨.circle, [⟨0, true, .circle, .green⟩, ⟨3, true, .circle, .red⟩]⟩] := by decide
+
+end Spiders
 
 end DV.C20
